@@ -4,6 +4,7 @@
 package simfs
 
 import (
+	"io"
 	"io/fs"
 	stdos "os"
 	"sort"
@@ -563,4 +564,158 @@ func Snapshot() []Entry {
 	}
 	rec(root, "")
 	return out
+}
+
+// ---- further parts of package os a changed tree might use ----
+
+type DirEntry = fs.DirEntry
+
+var ErrClosed = fs.ErrClosed
+
+//go:norace
+func Rename(oldpath, newpath string) error {
+	op, ob, ot, _, err := walk(oldpath)
+	if err != nil {
+		return perr("rename", oldpath, err)
+	}
+	if ot == nil || op == nil {
+		return perr("rename", oldpath, syscall.ENOENT)
+	}
+	np, nb, _, nabs, err := walk(newpath)
+	if err != nil {
+		return perr("rename", newpath, err)
+	}
+	if np == nil || !np.dir {
+		return perr("rename", newpath, syscall.ENOTDIR)
+	}
+	delete(op.children, ob)
+	np.children[nb] = ot
+	Effects = append(Effects, Effect{Op: "create", Path: nabs, Size: len(ot.data), Step: stamp()})
+	return nil
+}
+
+//go:norace
+func RemoveAll(p string) error {
+	parent, base, target, abs, err := walk(p)
+	if err != nil || target == nil || parent == nil {
+		return nil
+	}
+	delete(parent.children, base)
+	Effects = append(Effects, Effect{Op: "remove", Path: abs, Step: stamp()})
+	return nil
+}
+
+//go:norace
+func Chmod(name string, mode FileMode) error {
+	_, _, target, _, err := walk(name)
+	if err != nil {
+		return perr("chmod", name, err)
+	}
+	if target == nil {
+		return perr("chmod", name, syscall.ENOENT)
+	}
+	return nil
+}
+
+//go:norace
+func ReadDir(name string) ([]DirEntry, error) {
+	_, _, target, _, err := walk(name)
+	if err != nil {
+		return nil, perr("open", name, err)
+	}
+	if target == nil {
+		return nil, perr("open", name, syscall.ENOENT)
+	}
+	if !target.dir {
+		return nil, perr("readdir", name, syscall.ENOTDIR)
+	}
+	names := make([]string, 0, len(target.children))
+	for k := range target.children {
+		names = append(names, k)
+	}
+	sort.Strings(names)
+	var out []DirEntry
+	for _, k := range names {
+		out = append(out, fs.FileInfoToDirEntry(info{k, target.children[k]}))
+	}
+	return out, nil
+}
+
+func Hostname() (string, error)         { return "simhost", nil }
+func Getpid() int                       { return 4242 }
+func Environ() []string                 { return nil }
+func LookupEnv(k string) (string, bool) { return "", false }
+func TempDir() string                   { return "/tmp" }
+func UserHomeDir() (string, error)      { return "/root", nil }
+func Chdir(dir string) error {
+	_, _, target, abs, err := walk(dir)
+	if err != nil {
+		return perr("chdir", dir, err)
+	}
+	if target == nil || !target.dir {
+		return perr("chdir", dir, syscall.ENOENT)
+	}
+	cwd = abs
+	return nil
+}
+
+//go:norace
+func (f *File) Read(b []byte) (int, error) {
+	if f == nil || f.closed {
+		return 0, ErrInvalid
+	}
+	if f.pos >= len(f.n.data) {
+		return 0, io.EOF
+	}
+	n := copy(b, f.n.data[f.pos:])
+	f.pos += n
+	return n, nil
+}
+
+//go:norace
+func (f *File) Stat() (FileInfo, error) {
+	if f == nil {
+		return nil, ErrInvalid
+	}
+	return info{f.name, f.n}, nil
+}
+
+//go:norace
+func (f *File) Truncate(size int64) error {
+	if f == nil {
+		return ErrInvalid
+	}
+	if int(size) < len(f.n.data) {
+		f.n.data = f.n.data[:size]
+	}
+	Effects = append(Effects, Effect{Op: "write", Path: f.abs, Size: 0, Step: stamp()})
+	return nil
+}
+
+//go:norace
+func (f *File) Seek(offset int64, whence int) (int64, error) {
+	switch whence {
+	case 0:
+		f.pos = int(offset)
+	case 1:
+		f.pos += int(offset)
+	case 2:
+		f.pos = len(f.n.data) + int(offset)
+	}
+	if f.pos < 0 {
+		f.pos = 0
+	}
+	return int64(f.pos), nil
+}
+
+//go:norace
+func (f *File) WriteAt(b []byte, off int64) (int, error) {
+	save := f.pos
+	f.pos = int(off)
+	fl := f.flag
+	f.flag &^= O_APPEND
+	n, err := f.Write(b)
+	f.flag = fl
+	f.pos = save
+	return n, err
 }
